@@ -181,3 +181,12 @@ pub use crate::{
         credentials::{CredentialOptions, Credentials},
     },
 };
+
+/// Verification hooks (compiled only with `--cfg rustic_core_verif`): thin public wrappers around
+/// crate-private items so that an external harness can drive them. They add no behaviour.
+#[cfg(rustic_core_verif)]
+#[allow(missing_docs, missing_debug_implementations, clippy::all, clippy::pedantic, clippy::nursery)]
+pub mod verif {
+    pub use crate::chunker::verif_hooks as chunker;
+    pub use crate::error::verif_hooks as error;
+}
